@@ -53,6 +53,13 @@ def render_source(node):
             plain.append(t)
             styles.extend([current] * len(t))
             return
+        if "escaped_tag" in n:
+            # a registered tag written with pastel's escape character: rendered as the literal tag text
+            t = n["escaped_tag"]
+            src.append("\\" + t)
+            plain.append(t)
+            styles.extend([current] * len(t))
+            return
         name = n["tag"]
         codes = frozenset(REGISTERED[name]) if name in REGISTERED else frozenset(codes_of_spec(name))
         open_tag = LT + name + GT
@@ -79,7 +86,7 @@ def depth(nodes):
 
 def has_literal(nodes):
     for n in nodes:
-        if "literal_tag" in n:
+        if "literal_tag" in n or "escaped_tag" in n:
             return True
         if "text" in n and (LT in n["text"] or GT in n["text"]):
             return True
@@ -92,7 +99,7 @@ def source_is_unambiguous(nodes):
     """Independent tokenisation of the source: the tags found must be exactly the intended style tags plus
     unknown-word literal tags."""
     src, plain, styles, tags = render_source(nodes)
-    found = [m.group(0) for m in TAG_RE.finditer(src)]
+    found = [m.group(0) for m in TAG_RE.finditer(src) if not (m.start() > 0 and src[m.start() - 1] == "\\")]
     want = list(tags)
     i = 0
     for f in found:
@@ -149,6 +156,11 @@ def literal_st():
         lambda t: {"literal_tag": LT + ("/" if t[1] else "") + t[0] + GT})
 
 
+def escaped_st():
+    return st.sampled_from([LT + "b" + GT, LT + "/b" + GT, LT + "info" + GT, LT + "/" + GT, LT + "fg=red" + GT,
+                            LT + "/error" + GT]).map(lambda t: {"escaped_tag": t})
+
+
 def nodes_st(max_depth=4):
     def style_node(children):
         return st.fixed_dictionaries({
@@ -157,6 +169,6 @@ def nodes_st(max_depth=4):
             "children": st.lists(children, max_size=3),
         })
 
-    base = st.one_of(leaf_st(), leaf_st(), literal_st())
+    base = st.one_of(leaf_st(), leaf_st(), literal_st(), escaped_st())
     tree = st.recursive(base, lambda ch: st.one_of(leaf_st(), style_node(ch)), max_leaves=10)
     return st.lists(tree, min_size=1, max_size=4).filter(source_is_unambiguous)
